@@ -25,6 +25,13 @@ func main() {
 		fmt.Fprintln(os.Stderr, "unknown property", id)
 		os.Exit(2)
 	}
+	if mode == "fresh" {
+		// child side of mc.FreshAll: the case is the first library call of this process
+		if len(os.Args) < 4 {
+			os.Exit(2)
+		}
+		os.Exit(mc.FreshChild(id, os.Args[3], p.Replay))
+	}
 	if mode == "replay" {
 		if len(os.Args) < 4 {
 			fmt.Fprintln(os.Stderr, "replay needs a file")
@@ -52,6 +59,15 @@ func main() {
 			mc.SetOnly(pc.Seq, pc.Index)
 			p.Run(c)
 			os.Exit(c.Finish())
+		}
+		if v.Kind == "fresh" {
+			// found as the first call of a fresh process: this replay process is one, run the inner case
+			var fc mc.FreshCase
+			if err := json.Unmarshal(v.Case, &fc); err != nil {
+				fmt.Fprintln(os.Stderr, err)
+				os.Exit(2)
+			}
+			v.Kind, v.Case = fc.Kind, fc.Case
 		}
 		r := p.Replay[v.Kind]
 		if r == nil {
@@ -136,8 +152,10 @@ func main() {
 			c.NotExhaustive(fmt.Sprintf("shard %d was killed by the runtime at case %d; the rest of its share was not run", d.Shard, d.Index))
 			c.Violate(class+"/"+fam, "call", cas, "the worker process was killed by the Go runtime while running this case: "+out)
 		}
+		c.FreshSamples(p.Replay)
 		os.Exit(c.Finish())
 	}
 	p.Run(c)
+	c.FreshSamples(p.Replay)
 	os.Exit(c.Finish())
 }
